@@ -85,7 +85,7 @@ def check(prog: Program, tier: str) -> Result:
     _tmp = Result("C17", "", "")
     _c17._r17_9(prog, _tmp)
     res.adopt(_tmp, {"R17.9"}, "R4.p", "an unpinned constant can be a str or None: the operation raises TypeError out of the rule and out of format_code")
-    res.floors.update({"R4.t": 0, "R4.s": 20, "R4.r": 1, "R4.q": 30, "R4.p": 3, "R4.o": 2, "R4.n": 2, "R4.m": 2, "R4.a": 25, "R4.b": 200, "R4.c": 4, "R4.d": 18, "R4.e": 8, "R4.f": 40, "R4.h": 2, "R4.i": 2, "R4.j": 5, "R4.k": 1})
+    res.floors.update({"R4.t": 1, "R4.s": 20, "R4.r": 1, "R4.q": 30, "R4.p": 3, "R4.o": 2, "R4.n": 2, "R4.m": 2, "R4.a": 25, "R4.b": 200, "R4.c": 4, "R4.d": 18, "R4.e": 8, "R4.f": 40, "R4.h": 2, "R4.i": 2, "R4.j": 5, "R4.k": 1})
     return res
 
 
